@@ -84,6 +84,16 @@ def _upper_item(c: Any) -> Any:
     return SymInt(z3.If(z3.And(c.t >= 97, c.t <= 122), c.t - 32, c.t))
 
 
+def _upper_item_str(c: Any) -> Any:
+    """str.upper() for one code point, exact wherever the result is ASCII: besides a-z only U+0131 (dotless i -> I) and
+    U+017F (long s -> S) have an ASCII upper case; every other non-ASCII code point maps to a non-ASCII one and is left
+    as it is (sound for comparisons against ASCII text, which is what pymap does with it)"""
+    if isinstance(c, int):
+        return 0x49 if c == 0x131 else 0x53 if c == 0x17f else _upper_item(c)
+    return SymInt(z3.If(z3.And(c.t >= 97, c.t <= 122), c.t - 32,
+                        z3.If(c.t == 0x131, z3.IntVal(0x49), z3.If(c.t == 0x17f, z3.IntVal(0x53), c.t))))
+
+
 def _lower_item(c: Any) -> Any:
     if isinstance(c, int):
         return c + 32 if 65 <= c <= 90 else c
@@ -743,7 +753,7 @@ class SymStr(_SymSeq):
 
     def upper(self) -> Any:
         _case_guard(self.items)
-        return SymStr([_upper_item(c) for c in self.items])
+        return SymStr([_upper_item_str(c) for c in self.items])
 
     def lower(self) -> Any:
         _case_guard(self.items)
@@ -767,6 +777,8 @@ def _case_guard(items: list) -> None:
     harness; otherwise the path is outside the claim."""
     for c in items:
         if isinstance(c, int):
+            if c in (0x131, 0x17f):
+                continue
             if c >= 128 and chr(c).upper() != chr(c) or c >= 128 and chr(c).lower() != chr(c):
                 raise Unsupported('non-ASCII case mapping')
         else:
